@@ -181,6 +181,19 @@ def step_build_harness(report):
     return hooked
 
 
+def step_build_cli(report):
+    """C20: the resvg and usvg command-line binaries, built from /repo's working tree (no hooks)"""
+    t0 = time.time()
+    rc, out, err = sh(["cargo", "build", "--offline", "--config", "profile.dev.opt-level=2", "--manifest-path", os.path.join(REPO, "Cargo.toml"),
+                       "-p", "resvg", "-p", "usvg", "--bins", "--target-dir", os.path.join(HARNESS, "target", "cli")],
+                      cwd=REPO, env={"RUSTFLAGS": ""})
+    report["cli_build_s"] = round(time.time() - t0, 1)
+    if rc != 0:
+        report["cli_build_error"] = err[-1500:]
+        return False
+    return True
+
+
 def step_corr(pid, tier, seed, report):
     """returns (n_requests, disagreements[list of dict])"""
     os.makedirs(WORK, exist_ok=True)
@@ -301,6 +314,8 @@ def main():
         broken.append("harness: build failed against the current /repo tree: " + report.get("build_error", "")[-300:])
     elif not hooked:
         broken.append("harness: hooked build failed (hook anchors moved); public-API mode")
+    if spec.get("needs_cli") and not step_build_cli(report):
+        broken.append("cli: the resvg / usvg binaries do not build from the current /repo tree: " + report.get("cli_build_error", "")[-300:])
 
     n_req, dis = 0, []
     if hooked and spec.get("corr", True):
